@@ -62,7 +62,7 @@ pub const S8: &[&str] = &[
 /// 20 well connected atoms used inside nesting prefixes (seeded spaces)
 pub const SEED_ATOMS: &[&str] = &[
     "%m", "(", ")", ",", "=", ";", " ", "\n", "a", "1", "&v", "\"", "'", "/*c*/", "%", "%let ",
-    "%do", "%end", "%str(", "*", "%*c;",
+    "%do", "%end", "%str(", "*", "%*c;", "datalines;", "cards4",
 ];
 
 /// nesting prefixes and closers (DESIGN 1.3 item 2)
@@ -102,6 +102,9 @@ pub const SEEDS: &[(&str, &[&str])] = &[
     ("%sysfunc(f(1)", &["", ")"]),
     ("%m(%n()", &["", ")"]),
     ("%m(a ", &["", ")"]),
+    ("x %lbl:", &["", ";"]),
+    ("%lbl: ", &["", ";"]),
+    ("%if a %then %lbl:", &["", ";"]),
     ("* ", &["", ";"]),
     ("%* ", &["", ";"]),
     ("/* ", &["", "*/"]),
